@@ -16,6 +16,7 @@ def main():
     ap.add_argument("--workers", type=int, default=None)
     ap.add_argument("--budget", type=float, default=None)
     a = ap.parse_args()
+    os.environ["VERIF_TIER"] = a.tier
     from . import drivers
 
     if a.replay:
